@@ -44,6 +44,11 @@ def configs(tier, seed):
     for a, b in (('u3', 'fine'), ('u2', 'odd'), ('nonuni', 'nonuni4')):
         for op in ('add', 'multiply'):
             out.append({'a': a, 'b': b, 'op': op, 'sampling': 'min', 'ua': 'nm', 'ub': 'nm', 'other': 'spectrum', 'intvalues': True})
+    # spline interpolation options: operands with exactly order+1 samples (the spline is the interpolating polynomial) and with more
+    for method, pairs in (('quadratic', (('u3', 'u4'), ('u4', 'fine'), ('nonuni', 'nonuni4'), ('latefine', 'odd'))), ('cubic', (('u4', 'nonuni4'), ('nonuni4', 'latefine'), ('latefine', 'u4')))):
+        for a, b in pairs:
+            for op in ('add', 'multiply'):
+                out.append({'a': a, 'b': b, 'op': op, 'sampling': 'min', 'ua': 'nm', 'ub': 'nm', 'other': 'spectrum', 'method': method})
     for c in out:
         if c['ua'] != 'nm' or c['ub'] != 'nm':
             # unit conversion in floating point can move a range edge by one ulp, so that the real code sees an edge sample as outside
@@ -66,19 +71,46 @@ def _interp(W, grid, vals, q, fill):
     return fill
 
 
+def _spline(W, grid, vals, q, fill, order):
+    """spline interpolant of the requested order at q: the interpolating polynomial when there are exactly order+1 samples (exact Lagrange
+    weights), otherwise scipy.interpolate.make_interp_spline's weights on the unit vectors (the documented 'spline interpolation')"""
+    if q < grid[0] or q > grid[-1]:
+        return fill
+    n = len(grid)
+    if n == order + 1:
+        acc = 0
+        for k in range(n):
+            w = Fraction(1)
+            for j in range(n):
+                if j != k:
+                    w *= Fraction(q - grid[j], grid[k] - grid[j])
+            acc = acc + vals[k] * (W.const(w) if W.sym else float(w))
+        return acc
+    import scipy.interpolate as _si
+    xs = [float(g) for g in grid]
+    acc = 0
+    for k in range(n):
+        e = rnp.zeros(n)
+        e[k] = 1.0
+        w = float(_si.make_interp_spline(xs, e, k=order)(float(q)))
+        acc = acc + vals[k] * w
+    return acc
+
+
 def run(W, cfg):
     R = W.mod('radiometry')
     ga = [Fraction(x) for x in GRIDS[cfg['a']]]
     gb = [Fraction(x) for x in GRIDS[cfg['b']]]
     ua, ub = cfg['ua'], cfg['ub']
     nz = cfg['op'] == 'divide'
-    va = [W.real(f'va{k}') for k in range(len(ga))]
-    vb = [W.real(f'vb{k}', pos=nz) for k in range(len(gb))]
+    bounded = {'lo': -1, 'hi': 1} if cfg.get('method') else {}        # spline weights are floats: values of order one for the 1e-7 tolerance
+    va = [W.real(f'va{k}', **bounded) for k in range(len(ga))]
+    vb = [W.real(f'vb{k}', pos=nz, **bounded) for k in range(len(gb))]
     if cfg.get('intvalues'):
         # integer-valued spectra (e.g. a 0/1 filter curve given as ints): values are data, the fill value stays symbolic
         va = [(3 * k + 1) % 4 for k in range(len(ga))]
         vb = [(k + 1) % 3 for k in range(len(gb))]
-    fill = W.real('fill', pos=nz)
+    fill = W.real('fill', pos=nz, **bounded)
     num = (lambda q: q) if W.sym else float
 
     vu = cfg.get('valueunit')
@@ -113,7 +145,8 @@ def run(W, cfg):
         W.ob('operand values untouched', sa.value, W.array(va))
         return
     sb = mk(gb, vb, ub)
-    res = getattr(sa, cfg['op'])(sb, sampling=cfg['sampling'], fill_value=fill)
+    method = cfg.get('method', 'linear')
+    res = getattr(sa, cfg['op'])(sb, sampling=cfg['sampling'], fill_value=fill, **({'method': method} if method != 'linear' else {}))
     # ---- reference (in nanometres)
     lo, hi = min(ga[0], gb[0]), max(ga[-1], gb[-1])
     da = min(ga[k + 1] - ga[k] for k in range(len(ga) - 1))
@@ -134,6 +167,13 @@ def run(W, cfg):
         # values are per unit of the result's wavelength unit (ua): densities per nm times the nm-per-ua factor
         fa = W.const(TO_NM[ua]) if W.sym else float(TO_NM[ua])
         want = [OPS[cfg['op']](_interp(W, ga, [x * fa for x in va], q, fill), _interp(W, gb, [x * fa for x in vb], q, fill)) for q in grid]
+    elif method != 'linear':
+        order = {'quadratic': 2, 'cubic': 3}[method]
+        want = [OPS[cfg['op']](_spline(W, ga, va, q, fill, order), _spline(W, gb, vb, q, fill, order)) for q in grid]
+        W.float_constants()
+        for k in range(len(grid)):
+            W.ob_close(f'value = op(operands interpolated with the requested spline order, fill outside) [{k}]', res.value[k], want[k], 1e-7)
+        return
     else:
         want = [OPS[cfg['op']](_interp(W, ga, va, q, fill), _interp(W, gb, vb, q, fill)) for q in grid]
     W.ob('value = op(interpolated operands, fill outside)', res.value, W.array(want))
